@@ -266,10 +266,14 @@ class FDD_mpe_method(Contract):
     use = {"pyoma2.functions.fdd.FDD_mpe": "havoc-args"}
 
     def setup(self, c):
-        res = Obj("pyoma2.algorithms.data.result.FDDResult", {k: sym.Opaque(k) for k in ("S_val", "S_vec", "freq", "Sy")})
+        res = Obj("pyoma2.algorithms.data.result.FDDResult", {k: sym.Opaque(k) for k in ("S_val", "S_vec", "Sy")})
+        # the grid is a real array (its length and values are readable), the algorithm carries what _set_data binds (data, fs, dt)
+        res.fields["freq"] = S.array("freq", "float", shape=(S.integer("n_lines", lo=2),), finite=True)
         res.fields.update({"Fn": None, "Phi": None})
-        rp = Obj("rp", {"sel_freq": None, "DF": None})
-        return {"self": Obj("pyoma2.algorithms.fdd.FDD", {"result": res, "run_params": rp, "name": "a"}),
+        rp = Obj("rp", {"sel_freq": None, "DF": None, "nxseg": S.integer("nxseg", lo=2), "method_SD": "per", "pov": S.real("pov", lo=0)})
+        fs = S.real("fs", pos=True)
+        return {"self": Obj("pyoma2.algorithms.fdd.FDD", {"result": res, "run_params": rp, "name": "a", "fs": fs, "dt": sym.div(1, fs),
+                                                          "data": sym.Opaque("data")}),
                 "sel_freq": sym.Opaque("sel_freq"), "DF": S.real("DF", pos=True)}
 
     def check(self, c, pre, post, outcome):
